@@ -646,13 +646,14 @@ func (s *Sim) refetchClass(r *Req) int8 {
 	return 1
 }
 
-// loadedAnew: after the latest delete the gateway derived for variant v (from
-// a not-found answer, while the service still has the resource) a get request
-// sent later has brought its data again.
-func (s *Sim) loadedAnew(v *Variant) bool {
+// loadedAnew: after the delete the gateway derived for variant v (from a
+// not-found answer, while the service still has the resource) and of which a
+// client learnt at sequence number seen, a get request sent later has brought
+// its data again.
+func (s *Sim) loadedAnew(v *Variant, seen uint64) bool {
 	var after uint64
 	for _, e := range v.Stream {
-		if e.Kind == "delete" && e.Derived && e.Via != nil && e.Via.Delivered && e.Via.DlvSeq > after {
+		if e.Kind == "delete" && e.Derived && e.Via != nil && e.Via.Delivered && e.Via.DlvSeq > after && e.Via.DlvSeq < seen {
 			after = e.Via.DlvSeq
 		}
 	}
@@ -664,7 +665,7 @@ func (s *Sim) loadedAnew(v *Variant) bool {
 		return q.Type == "get" && q.Name == v.Name && ok && n == v.Query
 	}
 	for _, q := range s.tr.reqs {
-		if same(q) && q.NotFound && q.Delivered && q.DlvSeq > after {
+		if same(q) && q.NotFound && q.Delivered && q.DlvSeq > after && q.DlvSeq < seen {
 			after = q.DlvSeq
 		}
 	}
